@@ -67,6 +67,14 @@ func pathProblem(schemas ast.Schemas, root ast.Type, path ast.Path) string {
 			}
 			continue
 		}
+		if res.Kind == ast.KindScalar && res.Scalar != nil && res.Scalar.ScalarKind == ast.KindAny && i > 0 && path[i-1].TypeHint != nil && path[i-1].TypeHint.Kind == ast.KindRef {
+			// an `any` slot with a type hint (the compose rule): the hint says what the slot holds
+			hinted, ok := modelResolve(schemas, *path[i-1].TypeHint)
+			if !ok {
+				return fmt.Sprintf("step %d: the type hint of %q names an object that does not exist", i-1, path[i-1].Identifier)
+			}
+			res = hinted
+		}
 		if res.Kind == ast.KindIntersection || res.Kind == ast.KindDisjunction || (res.Kind == ast.KindScalar && res.Scalar != nil && res.Scalar.ScalarKind == ast.KindAny) {
 			return "" // not a plain struct chain: out of the walker's reach
 		}
@@ -1031,6 +1039,7 @@ func checkC17(r *Run) {
 			r.Sample(map[string]any{"language": lang, "veneers": allYAML.String()})
 		}
 	}
+	checkC17Compose(r)
 	r.Count("hook.rule_events", mon.events)
 	if mon.events == 0 {
 		r.Inconclusive("veneer hooks never fired")
